@@ -62,19 +62,22 @@ Section Sim.
     Pend gs sg -> Fr N sg s1 -> (forall g, In g gs -> tmem (g_name g) N = false) -> Pend gs s1.
   Proof. intros HP HF HN g Hg. rewrite (Fr_tlookup N sg s1 _ HF (HN g Hg)). apply HP. exact Hg. Qed.
 
-  Lemma fresh_not_written top lm D ps (N : list ident) g :
+  Lemma fresh_not_written ret k top lm D ps (N : list ident) g :
     (forall x, In x N -> tmem x (map fst D) = true) ->
-    In g (snd (trm top lm D ps)) -> tmem (g_name g) N = false.
+    In g (snd (trm ret k top lm D ps)) -> tmem (g_name g) N = false.
   Proof.
     intros HN Hg. apply trm_fresh in Hg. destruct (tmem (g_name g) N) eqn:E; [|reflexivity].
     apply tmem_In in E. apply HN in E. exfalso. exact (bool_contra _ E Hg).
   Qed.
 
   (* ---- branch selection ---- *)
-  Lemma pick_agree rho sg els l b :
+  Lemma oc_false o : oc false o = o.
+  Proof. destruct o; reflexivity. Qed.
+
+  Lemma pick_agree ret k rho sg els l b :
     (forall cb, In cb l -> cev (a_id (fst cb)) sg = peval (fst cb) rho) ->
     ppick sem rho els l = Some b ->
-    cpick sem info sg (trn els) (trnb l) = Some (trn b) /\ (b = els \/ exists c', In (c', b) l).
+    cpick sem info sg (trn ret k els) (trnb ret k l) = Some (trn ret k b) /\ (b = els \/ exists c', In (c', b) l).
   Proof.
     induction l as [|[c' b'] r IH]; intros HC HP; cbn [ppick cpick trnb] in *.
     - inversion HP; subst. auto.
@@ -90,18 +93,19 @@ Section Sim.
   (* [loc] = the locals the statement list declares (main-loop body only), on top of the store
      [sg'] that has the shape of the initial store *)
   Definition sim_at (f : nat) : Prop :=
-    forall ps top lm gf D L D' rho sg rho' tr o,
-    implb lm (no_top_tuple ps) = true ->
+    forall ps ret k top lm gf D L D' rho sg rho' tr o,
+    implb lm (no_top_tuple D ps) = true ->
     g_block gf top D L ps = Some D' ->
     incl (anns_in ps) (prog_anns P) -> incl (augs_in ps) (prog_augs P) ->
-    Rel D L rho sg -> Pend (snd (trm top lm D ps)) sg ->
+    NT D L ->
+    Rel D L rho sg -> Pend (snd (trm ret k top lm D ps)) sg ->
     pexec f rho ps = Some (rho', tr, o) ->
     exists loc sg' F,
-      (forall F', (F <= F')%nat -> cexec F' sg (fst (trm top lm D ps)) = Some (loc ++ sg', tr, o))
+      (forall F', (F <= F')%nat -> cexec F' sg (fst (trm ret k top lm D ps)) = Some (loc ++ sg', tr, oc ret o))
       /\ Fr (wr_in ps) sg sg'
       /\ Rel D L rho' sg'
-      /\ (top && lm = false -> loc = [])
-      /\ (o = ONormal -> Rel D' L rho' (loc ++ sg') /\ ConstsOk (snd (trm top lm D ps))).
+      /\ (top && lm = false -> TmpKeys loc)
+      /\ (o = ONormal -> Rel D' L rho' (loc ++ sg') /\ ConstsOk (snd (trm ret k top lm D ps))).
 
   Lemma Fr_app_l N1 N2 a b : Fr N1 a b -> Fr (N1 ++ N2) a b.
   Proof. apply Fr_mono. intros x H. rewrite tmem_app, H. reflexivity. Qed.
@@ -110,13 +114,14 @@ Section Sim.
   Lemma Fr_incl N1 N2 a b : incl N1 N2 -> Fr N1 a b -> Fr N2 a b.
   Proof. intro HI. apply Fr_mono. intros x H. apply tmem_In. apply HI. apply tmem_In. exact H. Qed.
 
-  Lemma sim_tail f (IH : sim_at f) top lm gf' D D1 L D' rho1 sg s1 p rest nsp gsp e1 F1 rho2 e2 o :
-    implb lm (no_top_tuple rest) = true ->
+  Lemma sim_tail f (IH : sim_at f) ret k1 top lm gf' D D1 L D' rho1 sg s1 p rest nsp gsp e1 F1 rho2 e2 o :
+    NT D1 L ->
+    implb lm (no_top_tuple D1 rest) = true ->
     g_block gf' top D1 L rest = Some D' ->
     incl (anns_in rest) (prog_anns P) -> incl (augs_in rest) (prog_augs P) ->
     ext D D1 ->
     Rel D1 L rho1 s1 ->
-    Pend (snd (trm top lm D1 rest)) sg ->
+    Pend (snd (trm ret k1 top lm D1 rest)) sg ->
     Fr (wr p) sg s1 ->
     (forall x, In x (wr p) -> tmem x (map fst D1) = true) ->
     (forall F' restC, (F1 <= F')%nat -> cexec (S F') sg (nsp ++ restC) =
@@ -124,16 +129,16 @@ Section Sim.
     ConstsOk gsp ->
     pexec f rho1 rest = Some (rho2, e2, o) ->
     exists loc sg' F,
-      (forall F', (F <= F')%nat -> cexec F' sg (nsp ++ fst (trm top lm D1 rest)) = Some (loc ++ sg', e1 ++ e2, o))
+      (forall F', (F <= F')%nat -> cexec F' sg (nsp ++ fst (trm ret k1 top lm D1 rest)) = Some (loc ++ sg', e1 ++ e2, oc ret o))
       /\ Fr (wr_in (p :: rest)) sg sg'
       /\ Rel D L rho2 sg'
-      /\ (top && lm = false -> loc = [])
-      /\ (o = ONormal -> Rel D' L rho2 (loc ++ sg') /\ ConstsOk (gsp ++ snd (trm top lm D1 rest))).
+      /\ (top && lm = false -> TmpKeys loc)
+      /\ (o = ONormal -> Rel D' L rho2 (loc ++ sg') /\ ConstsOk (gsp ++ snd (trm ret k1 top lm D1 rest))).
   Proof.
-    intros HT HG Han Hau HE HR HP HF HW HH HC HX.
-    assert (HP1 : Pend (snd (trm top lm D1 rest)) s1).
+    intros HNT HT HG Han Hau HE HR HP HF HW HH HC HX.
+    assert (HP1 : Pend (snd (trm ret k1 top lm D1 rest)) s1).
     { eapply Pend_frame; [exact HP|exact HF|]. intros g Hg. eapply fresh_not_written; eauto. }
-    destruct (IH rest top lm gf' D1 L D' rho1 s1 rho2 e2 o HT HG Han Hau HR HP1 HX) as (loc & sg' & F2 & C2 & Fr2 & R2 & L2 & N2).
+    destruct (IH rest ret k1 top lm gf' D1 L D' rho1 s1 rho2 e2 o HT HG Han Hau HNT HR HP1 HX) as (loc & sg' & F2 & C2 & Fr2 & R2 & L2 & N2).
     exists loc, sg', (S (Nat.max F1 F2)). split; [|split; [|split; [|split]]].
     - intros F' HF'. destruct F' as [|F'']; [lia|]. rewrite HH by lia. rewrite C2 by lia. reflexivity.
     - cbn [wr_in]. eapply Fr_trans_same; [apply Fr_app_l; exact HF|apply Fr_app_r; exact Fr2].
@@ -218,12 +223,110 @@ Section Sim.
         cbn [app]. rewrite cexec_assign. cbn [ceval]. rewrite Hc, Hb. cbn [ccont]. rewrite HCF by lia. reflexivity.
   Qed.
 
+  (* ---- tuple assignment to declared names, through temporaries ---- *)
+  Fixpoint TmOk (Tm : StmtSem.cstore) (k : Z) (es : list ann) (vs : list val) : Prop :=
+    match es, vs with
+    | [], [] => True
+    | e :: er, v :: vr =>
+        tlookup (tmp_name k) Tm = Some (a_ty e, v) /\ has_ty (a_ty e) v = true /\ TmOk Tm (k + 1) er vr
+    | _, _ => False
+    end.
+
+  Lemma TmOk_app Tm b : forall es vs k, TmOk Tm k es vs -> TmOk (Tm ++ b) k es vs.
+  Proof.
+    induction es as [|e er IH]; intros [|v vr] k H; cbn in *; auto.
+    destruct H as (H1 & H2 & H3). split; [rewrite tlookup_app, H1; reflexivity|]. split; [exact H2|apply IH; exact H3].
+  Qed.
+
+  Lemma tmp_name_inj a b : tmp_name a = tmp_name b -> a = b.
+  Proof. unfold tmp_name. intro H. inversion H. reflexivity. Qed.
+
+  Lemma is_tmp_tmp_name j : is_tmp (tmp_name j) = true.
+  Proof. reflexivity. Qed.
+
+  Lemma tmps_run D L rho : NT D L -> forall es k vs s,
+    Rel D L rho s -> pevals sem es rho = Some vs ->
+    (forall e, In e es -> fv_ok D L e = true /\ In e (prog_anns P)) ->
+    exists Tm,
+      (forall y, tmem y (map fst Tm) = true -> exists j, y = tmp_name j /\ k <= j) /\
+      TmOk Tm k es vs /\
+      (forall restC r F2, (forall F', (F2 <= F')%nat -> cexec F' (Tm ++ s) restC = Some r) ->
+         exists F, forall F', (F <= F')%nat -> cexec F' s (tuple_tmps es k ++ restC) = Some r).
+  Proof.
+    intros HNT. induction es as [|e er IH]; intros k vs s HR Hev Hes.
+    - cbn in Hev. inversion Hev; subst vs. exists []. split; [intros y Hy; discriminate|]. split; [exact I|].
+      intros restC r F2 HC. exists F2. exact HC.
+    - cbn [pevals] in Hev. destruct (peval e rho) as [v|] eqn:Ev; [|discriminate].
+      destruct (pevals sem er rho) as [vr|] eqn:Evr; [|discriminate]. inversion Hev; subst vs. clear Hev.
+      destruct (Hes e (or_introl eq_refl)) as [Hfv Hin].
+      destruct (eval_ok D L rho s e v HR Hfv Hin Ev) as [Hc Hv].
+      set (b := (tmp_name k, (a_ty e, v))).
+      assert (HR1 : Rel D L rho (b :: s)) by (apply Rel_tmp; assumption).
+      destruct (IH (k + 1) vr (b :: s) HR1 eq_refl) as (Tm' & K1 & K2 & K3).
+      { intros e0 He0. apply Hes. right. exact He0. }
+      exists (Tm' ++ [b]). split; [|split].
+      + intros y Hy. rewrite map_app, tmem_app in Hy. apply orb_true_iff in Hy as [Hy|Hy].
+        * destruct (K1 y Hy) as (j & -> & Hj). exists j. split; [reflexivity|lia].
+        * cbn in Hy. rewrite orb_false_r in Hy. apply text_eqb_eq in Hy. exists k. split; [exact Hy|lia].
+      + cbn [TmOk]. split; [|split; [exact Hv|apply TmOk_app; exact K2]].
+        rewrite tlookup_app.
+        assert (HN : tlookup (tmp_name k) Tm' = None).
+        { apply tmem_false_lookup. destruct (tmem (tmp_name k) (map fst Tm')) eqn:E; [|reflexivity].
+          destruct (K1 _ E) as (j & Hj & Hle). apply tmp_name_inj in Hj. lia. }
+        rewrite HN. unfold b. cbn [tlookup]. rewrite text_eqb_refl. reflexivity.
+      + intros restC r F2 HC. rewrite <- app_assoc in HC. cbn [app] in HC.
+        destruct (K3 restC r F2 HC) as (F & HF). exists (S F). intros F' HF'. destruct F' as [|F'']; [lia|].
+        cbn [tuple_tmps app]. rewrite cexec_decltmp. cbn [ceval]. rewrite Hc. rewrite (conv_has_ty _ _ Hv).
+        fold b. cbn [ccont]. rewrite HF by lia. destruct r as [[r1 r2] r3]. rewrite app_nil_l. reflexivity.
+  Qed.
+
+  Lemma cupd_skip x v (Tm s : StmtSem.cstore) : tmem x (map fst Tm) = false ->
+    cupd x v (Tm ++ s) = match cupd x v s with Some b => Some (Tm ++ b) | None => None end.
+  Proof.
+    induction Tm as [|[y [t u]] r IH]; cbn; intro H; [destruct (cupd x v s); reflexivity|].
+    apply orb_false_iff in H as [H1 H2]. rewrite H1. rewrite (IH H2). destruct (cupd x v s); reflexivity.
+  Qed.
+
+  Lemma asgs_run D L (Tm : StmtSem.cstore) : NT D L ->
+    (forall y, tmem y (map fst Tm) = true -> is_tmp y = true) ->
+    forall xs es vs k rhoc sgc,
+    TmOk Tm k es vs -> tuple_asg_tys D L xs es = true -> Rel D L rhoc sgc ->
+    exists sg1, Fr xs sgc sg1 /\ Rel D L (pbinds xs vs rhoc) sg1 /\
+      (forall restC r F2, (forall F', (F2 <= F')%nat -> cexec F' (Tm ++ sg1) restC = Some r) ->
+         exists F, forall F', (F <= F')%nat -> cexec F' (Tm ++ sgc) (tup_asgs xs k ++ restC) = Some r).
+  Proof.
+    intros HNT HTm. induction xs as [|x xr IH]; intros es vs k rhoc sgc HT Hty HR.
+    - destruct es; [|discriminate]. destruct vs; [|destruct HT]. exists sgc. cbn [pbinds tup_asgs app].
+      split; [apply Fr_refl|]. split; [exact HR|]. intros restC r F2 HC. exists F2. exact HC.
+    - destruct es as [|e er]; [discriminate|]. destruct vs as [|v vr]; [destruct HT|].
+      cbn [TmOk] in HT. destruct HT as (T1 & T2 & T3).
+      cbn [tuple_asg_tys] in Hty. apply andb_true_iff in Hty as [Hty H3]. apply andb_true_iff in Hty as [H1 H2].
+      apply negb_true_iff in H1. destruct (tlookup x D) as [t|] eqn:Hl; [|discriminate].
+      apply ty_eqb_eq in H2. subst t.
+      pose proof HR as [R1 R2]. destruct (R1 _ _ Hl) as (u & P1 & P2 & P3).
+      destruct (cupd_spec (x :: xr) x v sgc _ _ P3) as (b & Hb & L1 & L2 & HF).
+      { cbn. rewrite text_eqb_refl. reflexivity. }
+      rewrite (conv_has_ty _ _ T2) in L1.
+      assert (HxT : tmem x (map fst Tm) = false).
+      { destruct (tmem x (map fst Tm)) eqn:E; [|reflexivity]. apply HTm in E.
+        rewrite (HNT x) in E; [discriminate|]. left. eapply tlookup_dom_true; eauto. }
+      assert (HR1 : Rel D L (pset x v rhoc) b).
+      { eapply Rel_set; [exact HR|apply set_old; exact Hl| | | |]; eauto. }
+      destruct (IH er vr (k + 1) (pset x v rhoc) b T3 H3 HR1) as (sg1 & F1 & RR & K).
+      exists sg1. split; [eapply Fr_trans_same; [exact HF|eapply Fr_incl; [|exact F1]; apply incl_tl, incl_refl]|].
+      split; [exact RR|].
+      intros restC r F2 HC. destruct (K restC r F2 HC) as (F & HCF). exists (S F). intros F' HF'.
+      destruct F' as [|F'']; [lia|]. cbn [tup_asgs app]. rewrite cexec_assign. cbn [ceval].
+      unfold clook. rewrite tlookup_app, T1. cbn [option_map snd]. rewrite (cupd_skip _ _ _ _ HxT), Hb. cbn [ccont].
+      rewrite HCF by lia. destruct r as [[r1 r2] r3]. rewrite app_nil_l. reflexivity.
+  Qed.
+
   Lemma lastn_Fr N (sg s1 : StmtSem.cstore) : Fr N sg s1 -> lastn (length sg) s1 = s1.
   Proof. intro H. apply lastn_all. eapply Fr_length; eauto. Qed.
 
   Lemma sim_all : forall f, sim_at f.
   Proof.
-    induction f as [|f IH]; intros ps top lm gf D L D' rho sg rho' tr o Htup HG Han Hau HR HP HE; [discriminate|].
+    induction f as [|f IH]; intros ps ret k top lm gf D L D' rho sg rho' tr o Htup HG Han Hau HNT HR HP HE; [discriminate|].
     destruct ps as [|p rest].
     - (* nil *)
       rewrite pexec_nil in HE. inversion HE; subst.
@@ -232,16 +335,16 @@ Section Sim.
       + intros F' HF. destruct F'; [lia|]. reflexivity.
       + apply Fr_refl.
       + assumption.
-      + reflexivity.
+      + intros _. apply TmpKeys_nil.
       + intros _. split; [assumption|constructor].
     - apply g_block_cons_inv in HG as (gf' & D1 & -> & HS & HG).
       cbn [anns_in augs_in] in Han, Hau.
       apply incl_app_inv in Han as [Han1 Han2]. apply incl_app_inv in Hau as [Hau1 Hau2].
-      assert (Htr : implb lm (no_top_tuple rest) = true).
-      { destruct lm; [|reflexivity]. cbn [implb no_top_tuple forallb] in Htup |- *.
-        apply andb_true_iff in Htup as [_ Htup]. exact Htup. }
       pose proof (wr_dom_step' _ _ _ _ _ _ HS) as HWD.
       pose proof (g_step_ext _ _ _ _ _ _ HS) as HEXT.
+      pose proof (g_step_NT _ _ _ _ _ _ HS HNT) as HNT1.
+      assert (Htr : implb lm (no_top_tuple D1 rest) = true).
+      { destruct lm; [|reflexivity]. cbn [implb] in Htup |- *. eapply no_top_tuple_tail; eauto. }
       destruct p.
       + (* ---------- PAssign ---------- *)
         rewrite pexec_assign in HE. destruct (peval e rho) as [v|] eqn:Ev; [|discriminate]. cbn [pcont] in HE.
@@ -259,9 +362,9 @@ Section Sim.
           destruct (cupd_spec (wr (PAssign x e)) x v sg _ _ P3) as (b & Hb & L1 & L2 & HF).
           { cbn. rewrite text_eqb_refl. reflexivity. }
           rewrite (conv_has_ty _ _ Hv) in L1.
-          rewrite (trm_cons_old top lm D x e rest _ Hl) in HP |- *. cbn [fst snd] in HP |- *. rewrite tr1_unfold.
-          eapply (sim_tail f IH top lm gf' D D L D' (pset x v rho) sg b (PAssign x e) rest
-                    [NAssign x (XE (a_id e))] [] [] 0%nat rho2 e2 o2);
+          rewrite (trm_cons_old ret k top lm D x e rest _ Hl) in HP |- *. cbn [fst snd] in HP |- *. rewrite tr1_unfold.
+          eapply (sim_tail f IH ret _ top lm gf' D D L D' (pset x v rho) sg b (PAssign x e) rest
+                    [NAssign x (XE (a_id e))] [] [] 0%nat rho2 e2 o2 HNT1);
           [exact Htr|exact HG|exact Han2|exact Hau2| | | | | | | |exact Er].
           -- apply ext_refl.
           -- eapply Rel_set; [split; eassumption|apply set_old; exact Hl| | | |]; eauto.
@@ -271,16 +374,17 @@ Section Sim.
           -- intros F' restC _. cbn [app]. rewrite cexec_assign. cbn [ceval]. rewrite Hc, Hb. reflexivity.
           -- constructor.
         * (* first assignment at the declaring level *)
-          destruct top; [|discriminate]. inversion HS; subst D1. clear HS.
+          destruct top; [|discriminate]. destruct (is_tmp x) eqn:Hxt; [discriminate|]. cbn [andb negb] in HS.
+          inversion HS; subst D1. clear HS.
           destruct lm.
           { (* main-loop body: a local of loop(), declared in place *)
-            rewrite (trm_cons_newl D x e rest Hl) in HP |- *. cbn [fst snd] in HP |- *.
+            rewrite (trm_cons_newl ret k D x e rest Hl) in HP |- *. cbn [fst snd] in HP |- *.
             set (s1 := (x, (a_ty e, v)) :: sg).
             assert (HR1 : Rel (D ++ [(x, a_ty e)]) L (pset x v rho) s1).
             { eapply Rel_set; [exact HR|apply set_new; exact Hl|exact HxL|exact Hv| |].
               - unfold s1. cbn [tlookup]. rewrite text_eqb_refl. reflexivity.
               - intros y Hy. unfold s1. cbn [tlookup]. apply text_eqb_neq in Hy. rewrite Hy. reflexivity. }
-            destruct (IH rest true true gf' _ L D' _ s1 rho2 e2 o2 Htr HG Han2 Hau2 HR1) as (loc & sgr & F2 & C2 & Fr2 & R2' & _ & N2);
+            destruct (IH rest ret k true true gf' _ L D' _ s1 rho2 e2 o2 Htr HG Han2 Hau2 HNT1 HR1) as (loc & sgr & F2 & C2 & Fr2 & R2' & _ & N2);
               [intros g []|exact Er|].
             destruct (Fr_cons_inv' _ _ _ _ Fr2) as (q & sg2 & -> & Hq & Fr2').
             exists (loc ++ [q]), sg2, (S F2). split; [|split; [|split; [|split]]].
@@ -293,7 +397,7 @@ Section Sim.
               + rewrite Hq. cbn [fst]. exact HxL.
             - discriminate.
             - intro Ho. destruct (N2 Ho) as [N21 N22]. rewrite <- app_assoc. split; [exact N21|constructor]. }
-          rewrite (trm_cons_new D x e rest Hl) in *.
+          rewrite (trm_cons_new ret k D x e rest Hl) in *.
           destruct (closed_const e) eqn:Hcc; cbn [fst snd] in *.
           -- (* constant initialiser: no node *)
              pose proof (closed_const_fv e Hcc) as Hfv0.
@@ -304,9 +408,9 @@ Section Sim.
              { pose proof (HP g (or_introl eq_refl)) as Hg. unfold pend_val in Hg. cbn in Hg. rewrite Hs0 in Hg. exact Hg. }
              assert (HR1 : Rel (D ++ [(x, a_ty e)]) L (pset x v rho) sg).
              { eapply Rel_set; [exact HR|apply set_new; exact Hl| | | |]; eauto. }
-             assert (HP1 : Pend (snd (trm true false (D ++ [(x, a_ty e)]) rest)) sg).
+             assert (HP1 : Pend (snd (trm ret k true false (D ++ [(x, a_ty e)]) rest)) sg).
              { intros g' Hg'. apply HP. right. exact Hg'. }
-             destruct (IH rest true false gf' _ L D' _ sg rho2 e2 o2 eq_refl HG Han2 Hau2 HR1 HP1 Er) as (loc & sg' & F2 & C2 & Fr2 & R2' & L2 & N2).
+             destruct (IH rest ret k true false gf' _ L D' _ sg rho2 e2 o2 eq_refl HG Han2 Hau2 HNT1 HR1 HP1 Er) as (loc & sg' & F2 & C2 & Fr2 & R2' & L2 & N2).
              exists loc, sg', F2. split; [|split; [|split; [|split]]].
              ++ exact C2.
              ++ cbn [wr_in]. apply Fr_app_r. exact Fr2.
@@ -322,12 +426,12 @@ Section Sim.
              destruct (cupd_spec (wr (PAssign x e)) x v sg _ _ Hg) as (b & Hb & L1 & L2 & HF).
              { cbn. rewrite text_eqb_refl. reflexivity. }
              rewrite (conv_has_ty _ _ Hv) in L1.
-             change (NAssign x (XE (a_id e)) :: fst (trm true false (D ++ [(x, a_ty e)]) rest))
-               with ([NAssign x (XE (a_id e))] ++ fst (trm true false (D ++ [(x, a_ty e)]) rest)).
-             change (g :: snd (trm true false (D ++ [(x, a_ty e)]) rest))
-               with ([g] ++ snd (trm true false (D ++ [(x, a_ty e)]) rest)).
-             eapply (sim_tail f IH true false gf' D (D ++ [(x, a_ty e)]) L D' (pset x v rho) sg b (PAssign x e) rest
-                    [NAssign x (XE (a_id e))] [g] [] 0%nat rho2 e2 o2);
+             change (NAssign x (XE (a_id e)) :: fst (trm ret k true false (D ++ [(x, a_ty e)]) rest))
+               with ([NAssign x (XE (a_id e))] ++ fst (trm ret k true false (D ++ [(x, a_ty e)]) rest)).
+             change (g :: snd (trm ret k true false (D ++ [(x, a_ty e)]) rest))
+               with ([g] ++ snd (trm ret k true false (D ++ [(x, a_ty e)]) rest)).
+             eapply (sim_tail f IH ret _ true false gf' D (D ++ [(x, a_ty e)]) L D' (pset x v rho) sg b (PAssign x e) rest
+                    [NAssign x (XE (a_id e))] [g] [] 0%nat rho2 e2 o2 HNT1);
           [exact Htr|exact HG|exact Han2|exact Hau2| | | | | | | |exact Er].
              ++ apply ext_snoc.
              ++ eapply Rel_set; [exact HR|apply set_new; exact Hl| | | |]; eauto.
@@ -356,9 +460,9 @@ Section Sim.
         destruct (cupd_spec (wr (PAug x op e t_after)) x w sg _ _ P3) as (b & Hb & L1 & L2 & HF).
         { cbn. rewrite text_eqb_refl. reflexivity. }
         rewrite (conv_has_ty _ _ Hw) in L1.
-        rewrite (trm_cons_other top lm D (PAug x op e t_after) rest I) in HP |- *. cbn [fst snd] in HP |- *. rewrite tr1_unfold.
-        eapply (sim_tail f IH top lm gf' D D L D' (pset x w rho) sg b (PAug x op e t_after) rest
-                  [NAssign x (XAug x op (a_id e))] [] [] 0%nat rho2 e2 o2);
+        rewrite (trm_cons_other ret k top lm D (PAug x op e t_after) rest I) in HP |- *. cbn [fst snd] in HP |- *. rewrite tr1_unfold.
+        eapply (sim_tail f IH ret _ top lm gf' D D L D' (pset x w rho) sg b (PAug x op e t_after) rest
+                  [NAssign x (XAug x op (a_id e))] [] [] 0%nat rho2 e2 o2 HNT1);
           [exact Htr|exact HG|exact Han2|exact Hau2| | | | | | | |exact Er].
         * apply ext_refl.
         * eapply Rel_set; [split; eassumption|apply set_old; exact Hl| | | |]; eauto.
@@ -368,32 +472,65 @@ Section Sim.
         * intros F' restC _. cbn [app]. rewrite cexec_assign. cbn [ceval].
           rewrite (clook_tlookup _ _ _ _ P3), Hc, Ew, Hb. reflexivity.
         * constructor.
-      + (* ---------- PTuple: declaration of new globals at top level of the setup part ---------- *)
+      + (* ---------- PTuple ---------- *)
+        cbn [g_step] in HS. destruct (tuple_asg_ok D L xs es) eqn:Hq.
+        { (* assignment of declared names through temporaries of the enclosing block *)
+          inversion HS; subst D1. clear HS.
+          destruct (tuple_asg_ok_inv _ _ _ _ Hq) as (Hne & Hfvs & Hty).
+          destruct (tuple_asg_tys_inv _ _ _ _ Hty) as [Hlen Hdom].
+          rewrite pexec_tuple in HE. rewrite Hlen, Nat.leb_refl, firstn_all in HE.
+          destruct (pevals sem es rho) as [vs|] eqn:Evs; [|discriminate]. cbn [pcont] in HE.
+          destruct (pexec f (pbinds xs vs rho) rest) as [[[rho2 e2] o2]|] eqn:Er; [|discriminate].
+          inversion HE; subst rho' tr o. clear HE.
+          rewrite anns_of_unfold in Han1.
+          rewrite (trm_cons_tuple_asg ret k top lm D L xs es rest Hq) in HP |- *. cbn [fst snd] in HP |- *. rewrite tr1_unfold.
+          destruct (tmps_run D L rho HNT es k vs sg HR Evs) as (Tm & K1 & K2 & K3).
+          { intros e He. split; [rewrite forallb_forall in Hfvs; apply Hfvs; exact He|apply Han1; exact He]. }
+          assert (HTm : TmpKeys Tm).
+          { intros y Hy. destruct (K1 y Hy) as (j & -> & _). reflexivity. }
+          destruct (asgs_run D L Tm HNT HTm xs es vs k rho sg K2 Hty HR) as (sg1 & F1 & R1 & K4).
+          assert (HP1 : Pend (snd (trm ret (knext k (PTuple xs es)) top lm D rest)) (Tm ++ sg1)).
+          { intros g Hg. rewrite tlookup_skip_tmps; [| exact HTm |].
+            - eapply Pend_frame; [exact HP|exact F1| |exact Hg]. intros g0 Hg0. eapply fresh_not_written; [|exact Hg0].
+              intros y Hy. apply (Hdom y Hy).
+            - destruct top; [|destruct Hg]. destruct lm; [destruct Hg|]. eapply trt_names_nt; [exact HG|exact Hg]. }
+          destruct (IH rest ret _ top lm gf' D L D' _ (Tm ++ sg1) rho2 e2 o2 Htr HG Han2 Hau2 HNT (Rel_tmps _ _ _ _ _ HNT HTm R1) HP1 Er)
+            as (loc & sgX & F2 & C2 & Fr2 & R2 & L2 & N2).
+          destruct (Fr_app_inv _ _ _ _ Fr2) as (TmX & sg' & -> & FrT & FrS).
+          pose proof (Fr_TmpKeys _ _ _ FrT HTm) as HTX.
+          destruct (K4 _ _ F2 C2) as (F3 & C3). destruct (K3 _ _ F3 C3) as (F4 & C4).
+          exists (loc ++ TmX), sg', F4. split; [|split; [|split; [|split]]].
+          - intros F' HF'. rewrite <- !app_assoc in *. apply C4. exact HF'.
+          - cbn [wr_in]. rewrite wr_unfold. eapply Fr_trans_same; [apply Fr_app_l; exact F1|apply Fr_app_r; exact FrS].
+          - eapply Rel_untmps; [exact HNT|exact HTX|exact R2].
+          - intro Htl. apply TmpKeys_app; [apply L2; exact Htl|exact HTX].
+          - intro Ho. destruct (N2 Ho) as [N21 N22]. rewrite <- app_assoc. split; [exact N21|exact N22]. }
+        (* declaration of new globals at top level of the setup part *)
         cbn [g_step] in HS. destruct (top && tuple_decl_ok D L xs es) eqn:Hk; [|discriminate].
         inversion HS; subst D1. clear HS. apply andb_true_iff in Hk as [-> Hk].
-        destruct lm; [cbn in Htup; discriminate|].
+        destruct lm; [exfalso; cbn [implb] in Htup; eapply no_top_tuple_decl; eauto|].
         destruct (tuple_decl_ok_inv _ _ _ _ Hk) as (Hlen & Hfvs & Hnew & Hnd).
         rewrite pexec_tuple in HE. rewrite Hlen, Nat.leb_refl, firstn_all in HE.
         destruct (pevals sem es rho) as [vs|] eqn:Evs; [|discriminate]. cbn [pcont] in HE.
         destruct (pexec f (pbinds xs vs rho) rest) as [[[rho2 e2] o2]|] eqn:Er; [|discriminate].
         inversion HE; subst rho' tr o. clear HE.
         rewrite anns_of_unfold in Han1.
-        rewrite (trm_cons_tuple D L xs es rest Hk) in HP |- *. cbn [fst snd] in HP |- *.
+        rewrite (trm_cons_tuple ret k D L xs es rest Hk) in HP |- *. cbn [fst snd] in HP |- *.
         set (D1 := D ++ combine xs (map a_ty es)) in *.
-        assert (HgsF : forall g, In g (snd (trm true false D1 rest)) -> ~ In (g_name g) xs).
+        assert (HgsF : forall g, In g (snd (trm ret k true false D1 rest)) -> ~ In (g_name g) xs).
         { intros g Hg HI. apply trm_fresh in Hg. unfold D1 in Hg.
           rewrite map_app, tmem_app, map_fst_combine in Hg by (rewrite map_length; exact Hlen).
           apply orb_false_iff in Hg as [_ Hg]. apply tmem_In in HI. congruence. }
-        destruct (tuple_head D L rho xs es vs D rho sg (snd (trm true false D1 rest)) Hlen Evs) as (sg1 & F1 & R1 & C1 & K1).
+        destruct (tuple_head D L rho xs es vs D rho sg (snd (trm ret k true false D1 rest)) Hlen Evs) as (sg1 & F1 & R1 & C1 & K1).
         { intros e He. split; [rewrite forallb_forall in Hfvs; apply Hfvs; exact He|apply Han1; exact He]. }
         { apply nodupb_NoDup. exact Hnd. }
         { intros x Hx. destruct (Hnew x Hx) as [A B]. split; [apply tmem_false_lookup; exact A|auto]. }
         { exact HR. } { exact HR. } { exact HP. } { exact HgsF. }
-        assert (HP1 : Pend (snd (trm true false D1 rest)) sg1).
+        assert (HP1 : Pend (snd (trm ret k true false D1 rest)) sg1).
         { eapply Pend_frame; [|exact F1|].
           - intros g Hg. apply HP. apply in_or_app. right. exact Hg.
           - intros g Hg. apply tmem_false. apply HgsF. exact Hg. }
-        destruct (IH rest true false gf' D1 L D' _ sg1 rho2 e2 o2 eq_refl HG Han2 Hau2 R1 HP1 Er) as (loc & sg' & F2 & C2 & Fr2 & R2 & L2 & N2).
+        destruct (IH rest ret k true false gf' D1 L D' _ sg1 rho2 e2 o2 eq_refl HG Han2 Hau2 HNT1 R1 HP1 Er) as (loc & sg' & F2 & C2 & Fr2 & R2 & L2 & N2).
         destruct (K1 _ _ _ _ F2 C2) as (F & HCF).
         exists loc, sg', F. split; [exact HCF|]. split; [|split; [|split]].
         * cbn [wr_in]. rewrite wr_unfold. eapply Fr_trans_same; [apply Fr_app_l; exact F1|apply Fr_app_r; exact Fr2].
@@ -440,22 +577,21 @@ Section Sim.
             + apply Han1. right. apply in_or_app. right. apply in_or_app. left.
               apply (anns_inb_In c' b' elifs I). left. reflexivity.
             + apply (args_agree D L rho sg _ HR H2). }
-        destruct (pick_agree rho sg els _ b CONDS Epick) as [Hcp Hb].
+        destruct (pick_agree ret k rho sg els _ b CONDS Epick) as [Hcp Hb].
         destruct (GOOD b Hb) as (Gb & Anb & Aub & Wrb).
-        destruct (IH b false false gf' D L D rho sg rho1 e1 o1 eq_refl Gb Anb Aub HR) as (loc0 & s1 & Fb & Cb & Frb & Rb & Hl0 & _); [intros g []|exact Eb|].
-        rewrite (Hl0 eq_refl) in Cb. cbn [app] in Cb.
+        destruct (IH b ret k false false gf' D L D rho sg rho1 e1 o1 eq_refl Gb Anb Aub HNT HR) as (loc0 & s1 & Fb & Cb & Frb & Rb & Hl0 & _); [intros g []|exact Eb|].
         cbn [trm fst] in Cb.
         assert (HEAD : forall F', (Fb <= F')%nat ->
-                  (match cpick sem info sg (trn els) ((a_id c, trn body) :: trnb elifs) with
-                   | Some b0 => cblock sem augsem info F' sg b0 | None => None end) = Some (s1, e1, o1)).
+                  (match cpick sem info sg (trn ret k els) ((a_id c, trn ret k body) :: trnb ret k elifs) with
+                   | Some b0 => cblock sem augsem info F' sg b0 | None => None end) = Some (s1, e1, oc ret o1)).
         { intros F' HF'. cbn [trnb] in Hcp. rewrite Hcp. unfold cblock. rewrite Cb by exact HF'.
-          rewrite (lastn_Fr _ _ _ Frb). reflexivity. }
-        rewrite (trm_cons_other top lm D (PIf c body elifs els) rest I) in HP |- *. cbn [fst snd] in HP |- *. rewrite tr1_unfold.
+          rewrite (lastn_app_r (length sg) loc0 s1) by (eapply Fr_length; eauto). reflexivity. }
+        rewrite (trm_cons_other ret k top lm D (PIf c body elifs els) rest I) in HP |- *. cbn [fst snd] in HP |- *. rewrite tr1_unfold.
         destruct o1; cbn [pcont] in HE.
         * destruct (pexec f rho1 rest) as [[[rho2 e2] o2]|] eqn:Er; [|discriminate].
           inversion HE; subst rho' tr o. clear HE.
-          eapply (sim_tail f IH top lm gf' D D L D' rho1 sg s1 (PIf c body elifs els) rest
-                    [NIf ((a_id c, trn body) :: trnb elifs) (trn els)] [] e1 Fb rho2 e2 o2);
+          eapply (sim_tail f IH ret _ top lm gf' D D L D' rho1 sg s1 (PIf c body elifs els) rest
+                    [NIf ((a_id c, trn ret k body) :: trnb ret k elifs) (trn ret k els)] [] e1 Fb rho2 e2 o2 HNT1);
           [exact Htr|exact HG|exact Han2|exact Hau2| | | | | | | |exact Er].
           -- apply ext_refl.
           -- exact Rb.
@@ -470,7 +606,23 @@ Section Sim.
              rewrite (HEAD F'') by lia. reflexivity.
           -- cbn [wr_in]. apply Fr_app_l. eapply Fr_incl; [exact Wrb|exact Frb].
           -- exact Rb.
-          -- reflexivity.
+          -- intros _. apply TmpKeys_nil.
+          -- discriminate.
+        * inversion HE; subst rho' tr o. clear HE.
+          exists [], s1, (S Fb). split; [|split; [|split; [|split]]].
+          -- intros F' HF'. destruct F' as [|F'']; [lia|]. cbn [app]. rewrite cexec_if.
+             rewrite (HEAD F'') by lia. destruct ret; reflexivity.
+          -- cbn [wr_in]. apply Fr_app_l. eapply Fr_incl; [exact Wrb|exact Frb].
+          -- exact Rb.
+          -- intros _. apply TmpKeys_nil.
+          -- discriminate.
+        * inversion HE; subst rho' tr o. clear HE.
+          exists [], s1, (S Fb). split; [|split; [|split; [|split]]].
+          -- intros F' HF'. destruct F' as [|F'']; [lia|]. cbn [app]. rewrite cexec_if.
+             rewrite (HEAD F'') by lia. reflexivity.
+          -- cbn [wr_in]. apply Fr_app_l. eapply Fr_incl; [exact Wrb|exact Frb].
+          -- exact Rb.
+          -- intros _. apply TmpKeys_nil.
           -- discriminate.
       + (* ---------- PWhile ---------- *)
         rewrite pexec_while in HE. destruct (peval c rho) as [v|] eqn:Ec; [|discriminate].
@@ -483,42 +635,52 @@ Section Sim.
         destruct (eval_ok D L rho sg c v HR Hc Hin Ec) as [Hcv _].
         assert (Anb : incl (anns_in body) (prog_anns P)) by (intros y Hy; apply Han1; right; exact Hy).
         pose proof (wr_unfold (PWhile c body)) as HWR.
-        pose proof (trm_cons_other top lm D (PWhile c body) rest I) as HTRM. rewrite tr1_unfold in HTRM.
+        pose proof (trm_cons_other ret k top lm D (PWhile c body) rest I) as HTRM. rewrite tr1_unfold in HTRM.
         destruct (truthy v) eqn:Etv.
         * destruct (pexec f rho body) as [[[rho1 e1] o1]|] eqn:Eb; [|discriminate].
-          destruct (IH body false false gf' D L D rho sg rho1 e1 o1 eq_refl H1 Anb Hau1 HR) as (loc0 & s1 & Fb & Cb & Frb & Rb & Hl0 & _); [intros g []|exact Eb|].
-          rewrite (Hl0 eq_refl) in Cb. cbn [app] in Cb.
+          destruct (IH body false k false false gf' D L D rho sg rho1 e1 o1 eq_refl H1 Anb Hau1 HNT HR) as (loc0 & s1 & Fb & Cb & Frb & Rb & Hl0 & _); [intros g []|exact Eb|].
+          rewrite oc_false in Cb.
           cbn [trm fst] in Cb.
-          assert (BLK : forall F', (Fb <= F')%nat -> cblock sem augsem info F' sg (trn body) = Some (s1, e1, o1)).
-          { intros F' HF'. unfold cblock. rewrite Cb by exact HF'. rewrite (lastn_Fr _ _ _ Frb). reflexivity. }
-          destruct o1.
-          -- (* body completed: run the loop again *)
+          assert (BLK : forall F', (Fb <= F')%nat -> cblock sem augsem info F' sg (trn false k body) = Some (s1, e1, o1)).
+          { intros F' HF'. unfold cblock. rewrite Cb by exact HF'.
+            rewrite (lastn_app_r (length sg) loc0 s1) by (eapply Fr_length; eauto). reflexivity. }
+          assert (AGAIN : (o1 = ONormal \/ o1 = OContinue) ->
+                    match pexec f rho1 (PWhile c body :: rest) with
+                    | None => None | Some (rho2, e2, o) => Some (rho2, e1 ++ e2, o) end = Some (rho', tr, o) ->
+                    exists loc sg' F,
+                      (forall F', (F <= F')%nat -> cexec F' sg (fst (trm ret k top lm D (PWhile c body :: rest))) = Some (loc ++ sg', tr, oc ret o))
+                      /\ Fr (wr_in (PWhile c body :: rest)) sg sg'
+                      /\ Rel D L rho' sg'
+                      /\ (top && lm = false -> TmpKeys loc)
+                      /\ (o = ONormal -> Rel D' L rho' (loc ++ sg') /\ ConstsOk (snd (trm ret k top lm D (PWhile c body :: rest))))).
+          { intros Ho1 HE'.
              destruct (pexec f rho1 (PWhile c body :: rest)) as [[[rho2 e2] o2]|] eqn:Er; [|discriminate].
-             inversion HE; subst rho' tr o. clear HE.
+             inversion HE'; subst rho' tr o. clear HE'.
              assert (HG' : g_block (S gf') top D L (PWhile c body :: rest) = Some D').
              { rewrite g_block_cons, HS0. exact HG. }
-             assert (HP1 : Pend (snd (trm top lm D (PWhile c body :: rest))) s1).
+             assert (HP1 : Pend (snd (trm ret k top lm D (PWhile c body :: rest))) s1).
              { eapply Pend_frame; [exact HP|exact Frb|]. intros g Hg.
                eapply fresh_not_written; [|exact Hg]. intros y Hy. eapply wr_dom_nested; eauto. }
              assert (Han' : incl (anns_in (PWhile c body :: rest)) (prog_anns P)).
              { cbn [anns_in]. rewrite anns_of_unfold. apply incl_app; assumption. }
              assert (Hau' : incl (augs_in (PWhile c body :: rest)) (prog_augs P)).
              { cbn [augs_in]. rewrite augs_of_unfold. apply incl_app; assumption. }
-             destruct (IH _ top lm _ D L D' rho1 s1 rho2 e2 o2 Htup HG' Han' Hau' Rb HP1 Er) as (loc & s2 & F2 & C2 & Fr2 & R2 & L2 & N2).
+             destruct (IH _ ret k top lm _ D L D' rho1 s1 rho2 e2 o2 Htup HG' Han' Hau' HNT Rb HP1 Er) as (loc & s2 & F2 & C2 & Fr2 & R2 & L2 & N2).
              rewrite HTRM in *. cbn [fst snd app] in *.
              exists loc, s2, (S (Nat.max Fb F2)). split; [|split; [|split; [|split]]].
              ++ intros F' HF'. destruct F' as [|F'']; [lia|]. rewrite cexec_while, Hcv, Etv.
-                rewrite BLK by lia. rewrite C2 by lia. reflexivity.
+                rewrite BLK by lia. rewrite C2 by lia. destruct Ho1 as [-> | ->]; reflexivity.
              ++ eapply Fr_trans_same; [|exact Fr2]. cbn [wr_in]. apply Fr_app_l. rewrite HWR. exact Frb.
              ++ exact R2.
              ++ exact L2.
-             ++ exact N2.
+             ++ exact N2. }
+          destruct o1; [apply AGAIN; [left; reflexivity|exact HE]| |apply AGAIN; [right; reflexivity|exact HE]|discriminate].
           -- (* break: continue after the loop *)
              destruct (pexec f rho1 rest) as [[[rho2 e2] o2]|] eqn:Er; [|discriminate].
              inversion HE; subst rho' tr o. clear HE.
              rewrite HTRM in HP |- *. cbn [fst snd] in HP |- *.
-             eapply (sim_tail f IH top lm gf' D D L D' rho1 sg s1 (PWhile c body) rest
-                       [NWhile (a_id c) (trn body)] [] e1 Fb rho2 e2 o2);
+             eapply (sim_tail f IH ret _ top lm gf' D D L D' rho1 sg s1 (PWhile c body) rest
+                       [NWhile (a_id c) (trn false k body)] [] e1 Fb rho2 e2 o2 HNT1);
           [exact Htr|exact HG|exact Han2|exact Hau2| | | | | | | |exact Er].
              ++ apply ext_refl.
              ++ exact Rb.
@@ -530,8 +692,8 @@ Section Sim.
         * (* condition false *)
           rewrite HTRM in HP |- *. cbn [fst snd] in HP |- *.
           change tr with ([] ++ tr).
-          eapply (sim_tail f IH top lm gf' D D L D' rho sg sg (PWhile c body) rest
-                    [NWhile (a_id c) (trn body)] [] [] 0%nat rho' tr o);
+          eapply (sim_tail f IH ret _ top lm gf' D D L D' rho sg sg (PWhile c body) rest
+                    [NWhile (a_id c) (trn false k body)] [] [] 0%nat rho' tr o HNT1);
           [exact Htr|exact HG|exact Han2|exact Hau2| | | | | | | |exact HE].
           -- apply ext_refl.
           -- exact HR.
@@ -552,9 +714,10 @@ Section Sim.
         inversion HS; subst D1. clear HS.
         apply andb_true_iff in Hc as [Hc H8]. apply andb_true_iff in Hc as [Hc H7].
         apply andb_true_iff in Hc as [Hc H6]. apply andb_true_iff in Hc as [Hc H5].
+        apply andb_true_iff in Hc as [Hc H4t].
         apply andb_true_iff in Hc as [Hc H4]. apply andb_true_iff in Hc as [Hc H3].
         apply andb_true_iff in Hc as [Hc H2].
-        apply nested_true in H8. apply negb_true_iff in H3, H4, H5, H7.
+        apply nested_true in H8. apply negb_true_iff in H3, H4, H4t, H5, H7.
         rewrite anns_of_unfold in Han1. rewrite augs_of_unfold in Hau1.
         assert (Hin : In cnt (prog_anns P)) by (apply Han1; left; reflexivity).
         assert (Anb : incl (anns_in body) (prog_anns P)) by (intros y Hy; apply Han1; right; exact Hy).
@@ -571,41 +734,52 @@ Section Sim.
           apply (Fr_tlookup _ _ _ _ HF0). apply tmem_false. intro HI.
           apply wr_in_sub_assigned in HI. unfold disjoint in H6. rewrite forallb_forall in H6.
           specialize (H6 _ Hy). apply negb_true_iff in H6. apply tmem_In in HI. exact (bool_contra _ HI H6). }
-        assert (IT : forall k i rho0 sg0 rhoE eE,
-                  Rel D L rho0 sg0 -> Fr (wr_in body) sg sg0 -> k = Z.to_nat (n - i) ->
-                  piter sem augsem f x body k i rho0 = Some (rhoE, eE) ->
+        assert (IT : forall kn i rho0 sg0 rhoE eE,
+                  Rel D L rho0 sg0 -> Fr (wr_in body) sg sg0 -> kn = Z.to_nat (n - i) ->
+                  piter sem augsem f x body kn i rho0 = Some (rhoE, eE) ->
                   exists sgE vE FE,
-                    (forall F' kk, (FE <= F')%nat -> (k < kk)%nat ->
-                       citer sem augsem info F' x (a_id cnt) (trn body) kk ((x, (TyInt, VI i)) :: sg0)
-                       = Some ((x, (TyInt, vE)) :: sgE, eE))
+                    (forall F' kk, (FE <= F')%nat -> (kn < kk)%nat ->
+                       citer sem augsem info F' x (a_id cnt) (trn false k body) kk ((x, (TyInt, VI i)) :: sg0)
+                       = Some ((x, (TyInt, vE)) :: sgE, eE, false))
                     /\ Rel D L rhoE sgE /\ Fr (wr_in body) sg sgE).
-        { induction k as [|k IHk]; intros i rho0 sg0 rhoE eE HR0 HF0 Hk HI.
+        { induction kn as [|kn IHk]; intros i rho0 sg0 rhoE eE HR0 HF0 Hk HI.
           - cbn in HI. inversion HI; subst rhoE eE. exists sg0, (VI i), 0%nat. split; [|split; assumption].
             intros F' kk _ Hkk. destruct kk as [|kk']; [lia|]. cbn [citer].
             rewrite clook_head. cbn [snd]. rewrite (HCNT i sg0 HF0), En.
             assert (Hlt : (i <? n) = false) by (apply Z.ltb_ge; lia). rewrite Hlt. reflexivity.
           - cbn [piter] in HI.
             destruct (pexec f (pset x (VI i) rho0) body) as [[[rhoB eB] oB]|] eqn:Eb; [|discriminate].
-            destruct (IH body false false gf' D (x :: L) D (pset x (VI i) rho0) ((x, (TyInt, VI i)) :: sg0) rhoB eB oB eq_refl H8 Anb Hau1)
+            destruct (IH body false k false false gf' D (x :: L) D (pset x (VI i) rho0) ((x, (TyInt, VI i)) :: sg0) rhoB eB oB eq_refl H8 Anb Hau1 (NT_push D L x HNT H4t))
               as (loc0 & s1 & Fb & Cb & Frb & Rb & Hl0 & _); [apply Rel_push; assumption|intros g []|exact Eb|].
-            rewrite (Hl0 eq_refl) in Cb. cbn [app] in Cb.
+            rewrite oc_false in Cb.
             cbn [trm fst] in Cb.
             destruct (Fr_cons_inv _ _ _ _ Frb HxW) as (sg1 & -> & Frb').
             apply Rel_pop in Rb; [|assumption|assumption].
             assert (BLK : forall F', (Fb <= F')%nat ->
-                      cblock sem augsem info F' ((x, (TyInt, VI i)) :: sg0) (trn body) = Some ((x, (TyInt, VI i)) :: sg1, eB, oB)).
-            { intros F' HF'. unfold cblock. rewrite Cb by exact HF'. rewrite (lastn_Fr _ _ _ Frb). reflexivity. }
+                      cblock sem augsem info F' ((x, (TyInt, VI i)) :: sg0) (trn false k body) = Some ((x, (TyInt, VI i)) :: sg1, eB, oB)).
+            { intros F' HF'. unfold cblock. rewrite Cb by exact HF'.
+              rewrite (lastn_app_r (length ((x, (TyInt, VI i)) :: sg0)) loc0 ((x, (TyInt, VI i)) :: sg1)) by (eapply Fr_length; eauto). reflexivity. }
             assert (Hlt : (i <? n) = true) by (apply Z.ltb_lt; lia).
             assert (HF1 : Fr (wr_in body) sg sg1) by (eapply Fr_trans_same; eauto).
-            destruct oB.
-            + destruct (piter sem augsem f x body k (i + 1) rhoB) as [[rho2' e2']|] eqn:E2; [|discriminate].
-              inversion HI; subst rhoE eE. clear HI.
+            assert (NEXT : (oB = ONormal \/ oB = OContinue) ->
+                      match piter sem augsem f x body kn (i + 1) rhoB with
+                      | None => None | Some (rho2, e2) => Some (rho2, eB ++ e2) end = Some (rhoE, eE) ->
+                      exists sgE vE FE,
+                        (forall F' kk, (FE <= F')%nat -> (S kn < kk)%nat ->
+                           citer sem augsem info F' x (a_id cnt) (trn false k body) kk ((x, (TyInt, VI i)) :: sg0)
+                           = Some ((x, (TyInt, vE)) :: sgE, eE, false))
+                        /\ Rel D L rhoE sgE /\ Fr (wr_in body) sg sgE).
+            { intros HoB HI'.
+              destruct (piter sem augsem f x body kn (i + 1) rhoB) as [[rho2' e2']|] eqn:E2; [|discriminate].
+              inversion HI'; subst rhoE eE. clear HI'.
               destruct (IHk (i + 1) rhoB sg1 rho2' e2' Rb HF1) as (sgE & vE & FE & CE & RE & FrE); [lia|exact E2|].
               exists sgE, vE, (Nat.max Fb FE). split; [|split; assumption].
               intros F' kk HF' Hkk. destruct kk as [|kk']; [lia|]. cbn [citer].
               rewrite clook_head. cbn [snd]. rewrite (HCNT i sg0 HF0), En, Hlt.
-              rewrite BLK by lia. rewrite clook_head. cbn [snd cupd]. rewrite text_eqb_refl. cbn [conv].
-              rewrite CE by lia. reflexivity.
+              rewrite BLK by lia.
+              destruct HoB as [-> | ->]; rewrite clook_head; cbn [snd cupd]; rewrite text_eqb_refl; cbn [conv];
+                rewrite CE by lia; reflexivity. }
+            destruct oB; [apply NEXT; [left; reflexivity|exact HI]| |apply NEXT; [right; reflexivity|exact HI]|discriminate].
             + inversion HI; subst rhoE eE. clear HI.
               exists sg1, (VI i), Fb. split; [|split; assumption].
               intros F' kk HF' Hkk. destruct kk as [|kk']; [lia|]. cbn [citer].
@@ -613,9 +787,9 @@ Section Sim.
               rewrite BLK by lia. reflexivity. }
         destruct (IT (Z.to_nat n) 0 rho sg rho1 e1 HR (Fr_refl _ _)) as (sgE & vE & FE & CE & RE & FrE);
           [f_equal; lia|exact Eit|].
-        rewrite (trm_cons_other top lm D (PFor x cnt body) rest I) in HP |- *. cbn [fst snd] in HP |- *. rewrite tr1_unfold.
-        eapply (sim_tail f IH top lm gf' D D L D' rho1 sg sgE (PFor x cnt body) rest
-                  [NFor x (a_id cnt) (trn body)] [] e1 (Nat.max FE (Z.to_nat n)) rho2 e2 o2);
+        rewrite (trm_cons_other ret k top lm D (PFor x cnt body) rest I) in HP |- *. cbn [fst snd] in HP |- *. rewrite tr1_unfold.
+        eapply (sim_tail f IH ret _ top lm gf' D D L D' rho1 sg sgE (PFor x cnt body) rest
+                  [NFor x (a_id cnt) (trn false k body)] [] e1 (Nat.max FE (Z.to_nat n)) rho2 e2 o2 HNT1);
           [exact Htr|exact HG|exact Han2|exact Hau2| | | | | | | |exact Er].
         * apply ext_refl.
         * exact RE.
@@ -628,12 +802,22 @@ Section Sim.
       + (* ---------- PBreak ---------- *)
         rewrite pexec_break in HE. inversion HE; subst rho' tr o. clear HE.
         cbn [g_step] in HS. inversion HS; subst D1.
-        rewrite (trm_cons_other top lm D PBreak rest I). cbn [fst snd]. rewrite tr1_unfold.
+        rewrite (trm_cons_other ret k top lm D PBreak rest I). cbn [fst snd]. rewrite tr1_unfold.
         exists [], sg, 1%nat. split; [|split; [|split; [|split]]].
         * intros F' HF'. destruct F' as [|F'']; [lia|]. cbn [app]. apply cexec_break.
         * apply Fr_refl.
         * exact HR.
-        * reflexivity.
+        * intros _. apply TmpKeys_nil.
+        * discriminate.
+      + (* ---------- PContinue ---------- *)
+        rewrite pexec_continue in HE. inversion HE; subst rho' tr o. clear HE.
+        cbn [g_step] in HS. inversion HS; subst D1.
+        rewrite (trm_cons_other ret k top lm D PContinue rest I). cbn [fst snd]. rewrite tr1_unfold.
+        exists [], sg, 1%nat. split; [|split; [|split; [|split]]].
+        * intros F' HF'. destruct F' as [|F'']; [lia|]. destruct ret; cbn [app oc]; [apply cexec_return|apply cexec_continue].
+        * apply Fr_refl.
+        * exact HR.
+        * intros _. apply TmpKeys_nil.
         * discriminate.
       + (* ---------- PWrite ---------- *)
         rewrite pexec_write in HE. destruct (peval e rho) as [v|] eqn:Ev; [|discriminate]. cbn [pcont] in HE.
@@ -642,9 +826,9 @@ Section Sim.
         cbn [g_step] in HS. destruct (fv_ok D L e) eqn:Hfv; [|discriminate]. inversion HS; subst D1.
         rewrite anns_of_unfold in Han1. assert (Hin : In e (prog_anns P)) by (apply Han1; left; reflexivity).
         destruct (eval_ok D L rho sg e v HR Hfv Hin Ev) as [Hc Hv].
-        rewrite (trm_cons_other top lm D (PWrite e) rest I) in HP |- *. cbn [fst snd] in HP |- *. rewrite tr1_unfold.
-        eapply (sim_tail f IH top lm gf' D D L D' rho sg sg (PWrite e) rest
-                  [NWrite (a_id e)] [] [EvSer v] 0%nat rho2 e2 o2);
+        rewrite (trm_cons_other ret k top lm D (PWrite e) rest I) in HP |- *. cbn [fst snd] in HP |- *. rewrite tr1_unfold.
+        eapply (sim_tail f IH ret _ top lm gf' D D L D' rho sg sg (PWrite e) rest
+                  [NWrite (a_id e)] [] [EvSer v] 0%nat rho2 e2 o2 HNT1);
           [exact Htr|exact HG|exact Han2|exact Hau2| | | | | | | |exact Er].
         * apply ext_refl.
         * exact HR.
@@ -660,9 +844,9 @@ Section Sim.
         cbn [g_step] in HS. destruct (fv_ok D L e) eqn:Hfv; [|discriminate]. inversion HS; subst D1.
         rewrite anns_of_unfold in Han1. assert (Hin : In e (prog_anns P)) by (apply Han1; left; reflexivity).
         destruct (eval_ok D L rho sg e v HR Hfv Hin Ev) as [Hc Hv].
-        rewrite (trm_cons_other top lm D (PSleep e) rest I) in HP |- *. cbn [fst snd] in HP |- *. rewrite tr1_unfold.
-        eapply (sim_tail f IH top lm gf' D D L D' rho sg sg (PSleep e) rest
-                  [NSleep (a_id e)] [] [EvDelay v] 0%nat rho2 e2 o2);
+        rewrite (trm_cons_other ret k top lm D (PSleep e) rest I) in HP |- *. cbn [fst snd] in HP |- *. rewrite tr1_unfold.
+        eapply (sim_tail f IH ret _ top lm gf' D D L D' rho sg sg (PSleep e) rest
+                  [NSleep (a_id e)] [] [EvDelay v] 0%nat rho2 e2 o2 HNT1);
           [exact Htr|exact HG|exact Han2|exact Hau2| | | | | | | |exact Er].
         * apply ext_refl.
         * exact HR.
@@ -678,15 +862,15 @@ Section Sim.
         cbn [g_step] in HS. destruct (fv_ok D L e) eqn:Hfv; [|discriminate]. inversion HS; subst D1.
         rewrite anns_of_unfold in Han1. assert (Hin : In e (prog_anns P)) by (apply Han1; left; reflexivity).
         destruct (eval_ok D L rho sg e v HR Hfv Hin Ev) as [Hc Hv].
-        rewrite (trm_cons_other top lm D (PExprS e) rest I) in *. cbn [fst snd] in *. rewrite tr1_unfold.
+        rewrite (trm_cons_other ret k top lm D (PExprS e) rest I) in *. cbn [fst snd] in *. rewrite tr1_unfold.
         destruct (closed_const e) eqn:Hcc.
         * (* a constant expression statement is dropped on both sides *)
           cbn [app] in *.
-          destruct (IH rest top lm gf' D L D' rho sg rho2 e2 o2 Htr HG Han2 Hau2 HR HP Er) as (loc & sg' & F2 & C2 & Fr2 & R2 & L2 & N2).
+          destruct (IH rest ret k top lm gf' D L D' rho sg rho2 e2 o2 Htr HG Han2 Hau2 HNT HR HP Er) as (loc & sg' & F2 & C2 & Fr2 & R2 & L2 & N2).
           exists loc, sg', F2. split; [exact C2|]. split; [cbn [wr_in]; apply Fr_app_r; exact Fr2|].
           split; [|split]; assumption.
-        * eapply (sim_tail f IH top lm gf' D D L D' rho sg sg (PExprS e) rest
-                    [NExprS (a_id e)] [] [EvX (a_id e) v] 0%nat rho2 e2 o2);
+        * eapply (sim_tail f IH ret _ top lm gf' D D L D' rho sg sg (PExprS e) rest
+                    [NExprS (a_id e)] [] [EvX (a_id e) v] 0%nat rho2 e2 o2 HNT1);
           [exact Htr|exact HG|exact Han2|exact Hau2| | | | | | | |exact Er].
           -- apply ext_refl.
           -- exact HR.
